@@ -197,7 +197,7 @@ func ttxUnit(unitID byte, framing byte, mag, packet int, payload [40]byte) []byt
 type ttxHeaderFlags struct {
 	erase, subtitle, serial bool
 	newsflash               bool // C5
-	charset                 int // C12 + 2*C13 + 4*C14
+	charset                 int  // C12 + 2*C13 + 4*C14
 }
 
 func ttxHeader(page int, f ttxHeaderFlags) (p [40]byte) {
